@@ -50,6 +50,7 @@ EXPORT void* init_cplx_fftvec_addmul_precomp(CPLX_FFTVEC_ADDMUL_PRECOMP* r, uint
 EXPORT void* init_cplx_fftvec_mul_precomp(CPLX_FFTVEC_MUL_PRECOMP* r, uint32_t m);
 
 uint64_t VF_OUT[2 * MX], VF_OUT2[2 * MX];
+uint64_t VF_OUT3[2 * MX], VF_OUT4[2 * MX]; /* the same-dimension / other-parameters call and its fresh-table twin */
 static double pow2(int e) {
   union {
     double d;
@@ -94,8 +95,10 @@ static void call_simple(unsigned m, int dlog, unsigned bnd, uint64_t* r, const u
 }
 
 /* the same operation with a table initialised here, for (M1, D1, B1) */
-static void call_fresh(uint64_t* r, const uint64_t* a, const uint64_t* b) {
+static void call_fresh_p(uint64_t* r, const uint64_t* a, const uint64_t* b, int dlog, unsigned bnd) {
   (void)b;
+  (void)dlog;
+  (void)bnd;
 #if FUN == 0
   REIM_FFTVEC_MUL_PRECOMP* p = new_reim_fftvec_mul_precomp(M1);
   reim_fftvec_mul(p, (double*)r, (const double*)a, (const double*)b);
@@ -118,11 +121,11 @@ static void call_fresh(uint64_t* r, const uint64_t* a, const uint64_t* b) {
   reim4_to_cplx(&p, r, (const double*)a);
 #elif FUN == 6
   REIM_FROM_ZNX64_PRECOMP p;
-  init_reim_from_znx64_precomp(&p, M1, B1);
+  init_reim_from_znx64_precomp(&p, M1, bnd);
   reim_from_znx64(&p, r, (const int64_t*)a);
 #elif FUN == 7
   REIM_TO_ZNX64_PRECOMP p;
-  init_reim_to_znx64_precomp(&p, M1, pow2(D1), B1);
+  init_reim_to_znx64_precomp(&p, M1, pow2(dlog), bnd);
   reim_to_znx64(&p, (int64_t*)r, a);
 #elif FUN == 8
   CPLX_FROM_ZNX32_PRECOMP p;
@@ -134,7 +137,7 @@ static void call_fresh(uint64_t* r, const uint64_t* a, const uint64_t* b) {
   cplx_from_tnx32(&p, r, (const int32_t*)a);
 #elif FUN == 10
   CPLX_TO_TNX32_PRECOMP p;
-  init_cplx_to_tnx32_precomp(&p, M1, pow2(D1), B1);
+  init_cplx_to_tnx32_precomp(&p, M1, pow2(dlog), bnd);
   cplx_to_tnx32(&p, (int32_t*)r, a);
 #elif FUN == 11
   CPLX_FFTVEC_MUL_PRECOMP p;
@@ -146,6 +149,7 @@ static void call_fresh(uint64_t* r, const uint64_t* a, const uint64_t* b) {
   cplx_fftvec_addmul(&p, r, a, b);
 #endif
 }
+static void call_fresh(uint64_t* r, const uint64_t* a, const uint64_t* b) { call_fresh_p(r, a, b, D1, B1); }
 
 #ifdef __CPROVER__
 int vf_marker; /* assigned once when the warm-up calls are over: the write-set analysis (vf.alg.uf) looks at what is assigned afterwards */
@@ -202,8 +206,17 @@ void h_simple(void) {
 #ifdef SAMEDIM_OTHER_PARAMS
   {
     uint64_t* r4 = vf_alloc_words_raw(2 * M1);
-    for (unsigned i = 0; i < 2 * M1; ++i) r4[i] = r0[i];
+    uint64_t* rf4 = vf_alloc_words_raw(2 * M1);
+    for (unsigned i = 0; i < 2 * M1; ++i) r4[i] = rf4[i] = r0[i];
     call_simple(M1, D2, B2, r4, a1, b1); /* same dimension, other divisor / bound: the cache key must include them */
+    call_fresh_p(rf4, a1, b1, D2, B2);   /* ... and this call, too, must return what a fresh table for ITS parameters returns */
+    for (unsigned i = 0; i < 2 * M1; ++i) {
+      VF_OUT3[i] = r4[i];
+      VF_OUT4[i] = rf4[i];
+    }
+#ifndef __CPROVER__
+    for (unsigned i = 0; i < 2 * M1; ++i) VF_ASSERT(r4[i] == rf4[i], "call with other parameters at a cached dimension gives the bits of a fresh table for those parameters");
+#endif
   }
 #endif
   call_simple(M1, D1, B1, r3, a1, b1); /* the call under test */
